@@ -87,3 +87,54 @@ func (a *PinAtom) UnmarshalJSON(b []byte) error {
 	*a = PinAtom(p)
 	return nil
 }
+
+type histPairPlain HistPair
+
+func (p HistPair) MarshalJSON() ([]byte, error) {
+	q := histPairPlain(p)
+	q.K, q.V, q.KT, q.VT = encStr(q.K), encStr(q.V), encStr(q.KT), encStr(q.VT)
+	return json.Marshal(q)
+}
+func (p *HistPair) UnmarshalJSON(b []byte) error {
+	var q histPairPlain
+	if err := json.Unmarshal(b, &q); err != nil {
+		return err
+	}
+	q.K, q.V, q.KT, q.VT = decStr(q.K), decStr(q.V), decStr(q.KT), decStr(q.VT)
+	*p = HistPair(q)
+	return nil
+}
+
+type histStmtPlain HistStmt
+
+func (h HistStmt) MarshalJSON() ([]byte, error) {
+	q := histStmtPlain(h)
+	q.Key, q.Text, q.Pred = encStr(q.Key), encStr(q.Text), encStr(q.Pred)
+	return json.Marshal(q)
+}
+func (h *HistStmt) UnmarshalJSON(b []byte) error {
+	var q histStmtPlain
+	if err := json.Unmarshal(b, &q); err != nil {
+		return err
+	}
+	q.Key, q.Text, q.Pred = decStr(q.Key), decStr(q.Text), decStr(q.Pred)
+	*h = HistStmt(q)
+	return nil
+}
+
+type limitCasePlain LimitCase
+
+func (l LimitCase) MarshalJSON() ([]byte, error) {
+	q := limitCasePlain(l)
+	q.Base = encStr(q.Base)
+	return json.Marshal(q)
+}
+func (l *LimitCase) UnmarshalJSON(b []byte) error {
+	var q limitCasePlain
+	if err := json.Unmarshal(b, &q); err != nil {
+		return err
+	}
+	q.Base = decStr(q.Base)
+	*l = LimitCase(q)
+	return nil
+}
